@@ -48,9 +48,9 @@ PAYLOAD_ATTRS = {
 
 def run(ctx: Context) -> None:
     order = documented_order(ctx)
-    r1_r2_table(ctx, order)
-    r2_exception_classes(ctx)
-    r3_grid(ctx)
+    ctx.rule(r1_r2_table, order)
+    ctx.rule(r2_exception_classes)
+    ctx.rule(r3_grid)
 
 
 def documented_order(ctx: Context) -> list[str]:
